@@ -83,7 +83,18 @@ def run_unit(unit_name, repo, outdir, prop, tier, rlimit=None, extra_args=None):
     """returns (obligations, info) ; raises Undecided"""
     t0 = time.time()
     unit = vxgen.load_unit(unit_name)
-    path, linemap, res = vxgen.generate(repo, unit, outdir)
+    path, linemap, res = vxgen.generate(repo, unit, outdir, partial=True)
+    lost = res.get("errors") or []
+    lost_msg = "extraction: " + "; ".join(e["kind"] + ": " + e["msg"] for e in lost) if lost else None
+    try:
+        return _verify_unit(unit_name, unit, path, linemap, res, repo, outdir, prop, tier, rlimit, extra_args, t0, lost, lost_msg)
+    except Undecided:
+        if lost_msg:   # the remainder does not stand on its own: the unit is undecided for the reason the extraction gave
+            raise Undecided(lost_msg)
+        raise
+
+
+def _verify_unit(unit_name, unit, path, linemap, res, repo, outdir, prop, tier, rlimit, extra_args, t0, lost, lost_msg):
     gen_lines = open(path).read().split("\n")
     args = [VERUS, path, "--output-json", "--error-format=json", "--multiple-errors", "20", "--time",
             "--num-threads", "8"]
@@ -211,6 +222,16 @@ def run_unit(unit_name, repo, outdir, prop, tier, rlimit=None, extra_args=None):
     # if Verus verified more functions than we could name (e.g. trait default bodies), keep count
     for k in range(n_ver - named):
         obls.append(Obligation("%s/V/%s::<unnamed-%d>" % (prop, unit_name, k), "verus", DISCHARGED))
+    if lost:
+        if not any(o.status == FAILED for o in obls):
+            raise Undecided(lost_msg)
+        # a failing obligation among the items that could still be extracted is a verdict; the lost items are undecided
+        for e in lost:
+            obls.append(Obligation("%s/V/%s::%s" % (prop, unit_name, e.get("id") or "?"), "verus", UNDECIDED, detail=e["kind"] + ": " + e["msg"]))
+        info = {"unit": unit_name, "backend": "verus", "generated_file": path, "verified": n_ver, "errors": n_err,
+                "wall_s": round(time.time() - t0, 2), "cmd": " ".join(args), "partial_extraction": [e.get("id") for e in lost],
+                "items": [{"id": it["id"], "file": it["file"], "select": it["select"], "src_lines": it["src_lines"]} for it in res["items"]]}
+        return obls, info
     # ---- vacuity guard: with `assert(false)` at the start of every extracted body, every such
     # function must FAIL; one that still verifies has a contradictory precondition
     canary_info = run_canary(unit, repo, outdir, args[2:], res)
